@@ -12,12 +12,13 @@ EXTENDS Naturals, Sequences, FiniteSets, TLC
 CONSTANTS MaxAssertions, MaxFaults
 
 RootOK == [version |-> "ok", dest |-> "ok", issuer |-> "ok", status |-> "ok"]
-AsOK   == [issuer |-> "ok", subject |-> "ok", conf |-> "ok", method |-> "ok", data |-> "ok", recipient |-> "ok", noa |-> "ok", authn |-> "ok", advice |-> "ok"]
+AsOK   == [issuer |-> "ok", subject |-> "ok", conf |-> "ok", method |-> "ok", data |-> "ok", recipient |-> "ok", noa |-> "ok", authn |-> "ok", advice |-> "ok", attrs |-> "ok"]
 \* "near" is a near miss of the expected URL (query string, fragment, userinfo, host case, trailing slash);
 \* authn = "absent" (no AuthnStatement) is a legal variation, not a fault; advice = "nested": the IdP placed an
 \* individually signed evidence assertion into the assertion's Advice before signing -- ignored when the Response is
 \* signed or signatures are not checked, and fatal (an assertion that is not a child of the Response) when the
-\* assertions are verified one by one
+\* assertions are verified one by one; attrs = "absent" (no AttributeStatement) is legal too: validation accepts it, the
+\* assertion-info summary refuses it on the FIRST assertion unless the provider allows missing attributes
 
 \* catalogue: <<where, field, value>>; where = 0 for the root, i for assertion i
 RootFaults == { <<0, "version", "absent">>, <<0, "version", "wrong">>,
@@ -28,7 +29,7 @@ RootFaults == { <<0, "version", "absent">>, <<0, "version", "wrong">>,
                 <<0, "status", "nestfail">>, <<0, "status", "nestok">> }
 AsFaults(n) == { <<i, f[1], f[2]>> : i \in 1..n,
                  f \in { <<"issuer", "absent">>, <<"issuer", "other">>, <<"subject", "absent">>, <<"conf", "absent">>,
-                         <<"method", "other">>, <<"data", "absent">>, <<"recipient", "absent">>, <<"recipient", "other">>, <<"recipient", "near">>, <<"authn", "absent">>, <<"advice", "nested">>,
+                         <<"method", "other">>, <<"data", "absent">>, <<"recipient", "absent">>, <<"recipient", "other">>, <<"recipient", "near">>, <<"authn", "absent">>, <<"advice", "nested">>, <<"attrs", "absent">>,
                          <<"noa", "absent">>, <<"noa", "malformed">>, <<"noa", "past">> } }
 
 Subsets(S, k) == {{}} \cup (IF k >= 1 THEN { {a} : a \in S } ELSE {})
@@ -46,7 +47,7 @@ Apply(n, T) ==
 Docs == UNION { { Apply(n, T) : T \in { T2 \in Subsets(RootFaults \cup AsFaults(n), MaxFaults) : Consistent(T2) } } : n \in 0..MaxAssertions }
 
 \* sigmode: which element the IdP signed.  "none" only makes sense in skip mode.
-Cfgs   == [skip : BOOLEAN, issuerCfg : BOOLEAN]
+Cfgs   == [skip : BOOLEAN, issuerCfg : BOOLEAN, allowMissing : BOOLEAN]
 Inputs == [sigmode : {"root", "assert", "none"}, doc : Docs]
 CaseOK(cfg, in) == (in.sigmode = "none") <=> cfg.skip
 
@@ -92,6 +93,10 @@ ModelErr(cfg, in) ==
    LET e == RootCheck(cfg, in.doc.root, Len(in.doc.as)) IN
    IF e.cls # "none" THEN e ELSE FirstAsErr(cfg, in.doc.as, 1)
 
+\* retrieve_assertion.go:49-112: the summary exists iff validation accepts and the first assertion has attributes to report
+\* (or the provider does not insist); its flag mirrors the Response's, which is set iff the Response's own signature was checked
+InfoRes(cfg, in) == IF ModelErr(cfg, in).cls # "none" THEN "reject"
+                    ELSE IF in.doc.as[1].attrs = "absent" /\ ~cfg.allowMissing THEN "reject" ELSE "accept"
 ModelOut(cfg, in) == LET e == ModelErr(cfg, in) IN [res |-> IF e.cls = "none" THEN "accept" ELSE "reject", err |-> e]
 
 ---------------------------------------------------------------------------
@@ -138,9 +143,15 @@ C03_OK(cfg, in, o) ==
    /\ (o.info.res = "accept") => o.res = "accept"
 
 C09_OK(cfg, in, o) == o.res \in {"accept", "reject"} /\ o.info.res \in {"accept", "reject"}
+\* C04: flags never overstate, and the summary's flag mirrors the Response's
+C04_OK(cfg, in, o) ==
+   /\ (o.res = "accept" /\ o.rflag) => (in.sigmode = "root" /\ ~cfg.skip)
+   /\ (o.res = "accept" /\ in.sigmode = "root" /\ ~cfg.skip) => o.rflag
+   /\ (o.info.res = "accept") => (o.iflag = o.rflag)
 
 ObsErrIs(e, m) == IF m.cls = "none" THEN e.cls = "none"
                   ELSE IF m.cls = "other" THEN e.cls = "other"
                   ELSE (e.cls = "typed" /\ e.type = m.type /\ m.name \in Names(e))
 Conforms(m, o) == o.res = m.res /\ ObsErrIs(o.err, m.err)
+ConformsInfo(cfg, in, o) == o.info.res = InfoRes(cfg, in)
 =============================================================================
